@@ -78,7 +78,7 @@ func NewValidateSchema(options plugintypes.OperatorOptions) (plugintypes.Operato
 	}
 
 	key := md5Hash(schemaData)
-	schema, err := memoizeDo(options.Memoizer, key, func() (any, error) {
+	schema, err := memoizeDo(options.Memoizer, "jsonschema:"+key, func() (any, error) {
 		// Preliminarily validate that the schema is valid JSON
 		var jsonSchema any
 		if err := json.Unmarshal(schemaData, &jsonSchema); err != nil {
